@@ -141,7 +141,18 @@ unsafe impl GlobalAlloc for Rec {
                 return std::ptr::null_mut();
             }
         }
-        let q = System.realloc(p, l, new);
+        // a recorded realloc always MOVES the block and poisons the old one (the allocator contract allows it; the
+        // system allocator usually shrinks in place, which would hide a pointer kept across the call)
+        let q = {
+            let nl = Layout::from_size_align_unchecked(new, l.align());
+            let q = System.alloc(nl);
+            if !q.is_null() {
+                std::ptr::copy_nonoverlapping(p, q, l.size().min(new));
+                std::ptr::write_bytes(p, 0xDD, l.size());
+                System.dealloc(p, l);
+            }
+            q
+        };
         let mut g = BLOCKS.lock().unwrap();
         let old = match g.iter().position(|b| b.0 == p as usize) {
             Some(i) => g.remove(i).2,
